@@ -628,7 +628,13 @@ func (x *c03Ctx) judge(cs c03Case, ans c03Answer, status, msg, frame string, mod
 	if cs.Rd > 1 {
 		rdc = "rd>1"
 	}
-	if cs.Tag == "witness-seekhit" && (status != "ok" || ans.Panic != "") {
+	anyDiff := false
+	for i := range ans.Uncached {
+		if cs.Ops[i] != "S" && (i >= len(ans.Cached) || ans.Cached[i] != ans.Uncached[i]) {
+			anyDiff = true
+		}
+	}
+	if cs.Tag == "witness-seekhit" && (status != "ok" || ans.Panic != "" || anyDiff) {
 		res.fail("c03.rd>1.seek-cache-hit.worker-not-redirected",
 			fmt.Sprintf("%s cache, rd=%d: after a Seek that was served from the cache, reading on past the end of that block: %s %s%s (%s)", kind, cs.Rd, status, msg, ans.Panic, frame), cs)
 		return true
@@ -863,18 +869,39 @@ func checkC03(c *ctx) {
 			p0, _ = c03Start()
 		}
 	}
+	// Seek served from the cache with read-ahead running.  Without repair C03-3 this fails on every run; with it a
+	// run can still fail now and then through the eviction race of the recorded finding (judged as such).
 	for v := 0; v < 2; v++ {
 		cs := c03WitnessSeekHit(v)
-		for rep := 0; rep < 10; rep++ {
+		type one struct {
+			ans      c03Answer
+			st, m, f string
+		}
+		var bad []one
+		const reps = 12
+		for rep := 0; rep < reps; rep++ {
 			ans, st, msg, fr := p0.askT(cs, 1500*time.Millisecond)
 			res.eval(fmt.Sprint("witness-seekhit", v, rep), true)
 			res.hist("witness: Seek served from the cache with read-ahead running")
-			bad := x.judge(cs, ans, st, msg, fr, false)
+			differs := false
+			for i := range ans.Uncached {
+				if i >= len(ans.Cached) || ans.Cached[i] != ans.Uncached[i] {
+					differs = true
+				}
+			}
+			if st != "ok" || ans.Panic != "" || differs {
+				bad = append(bad, one{ans, st, msg, fr})
+			}
 			if st != "ok" {
 				p0, _ = c03Start()
 			}
-			if bad {
-				break
+		}
+		if len(bad) >= reps*3/4 {
+			x.judge(cs, bad[0].ans, bad[0].st, bad[0].m, bad[0].f, false)
+		} else {
+			cs.Tag = ""
+			for _, b := range bad {
+				x.judge(cs, b.ans, b.st, b.m, b.f, false)
 			}
 		}
 	}
